@@ -46,6 +46,40 @@ q('tryn_cap2', 2, ['PUSHN(0,2);SIGNAL(0)', 'AWAIT(0);TRYPOPN(2)'], props={'asser
 q('spin_wait_futexless', 1, ['PUSH(0);PUSH(1)', 'POP();POP()'], extra_defs=['VF_FW=false', 'VF_FK=false'], props={'assert': 'C01'})
 q('nonconc_producer', 2, ['PUSH(0);PUSH(1)', 'POP()', 'POP()'], extra_defs=['VF_C=true'], tiers=('thorough',))
 
+# ----------------------------------------------------------------------------------------------- C09: epoch
+M3 = {'quick': ['sc', 'tso', 'arm'], 'thorough': ['sc', 'tso', 'arm']}
+def ep(name, ts, nacc=1, extra=(), **kw):
+    S('ep_' + name, 'epoch/ep.cpp', {'assert': 'C09'}, defs=['VF_NACC=%d' % nacc] + ['VF_T%d=%s' % (i, t) for i, t in enumerate(ts)] + list(extra), models=kw.pop('models', M3), **kw)
+ep('reader_writer', ['READER(0)', 'WRITER()'])
+ep('nested', ['READER_NESTED(0)', 'WRITER()'])
+ep('two_readers', ['READER(0)', 'READER(1)', 'WRITER()'], nacc=2)
+ep('second_slot', ['READER(1)', 'WRITER()'], nacc=2)
+ep('handoff', ['acc[0].lock();SIGNAL(0)', 'AWAIT(0);USE();acc[0].unlock()', 'WRITER()'])
+ep('released_not_blocking', ['READER(0);acc[0].release();SIGNAL(0)', 'AWAIT(0);WRITER_MUST_RECLAIM()'])
+ep('unlocked_not_blocking', ['READER_NESTED(0);SIGNAL(0)', 'AWAIT(0);WRITER_MUST_RECLAIM()'])
+ep('reader_twice', ['READER(0);READER(0)', 'WRITER()'])
+ep('create_during_scan', ['auto a = e->create_accessor(); a.lock(); USE(); a.unlock()', 'WRITER()'], nacc=1, tiers=('thorough',))
+
+# ----------------------------------------------------------------------------------------------- C08: future
+FUP = {'assert': 'C08', 'stuck': 'C08'}
+def fu(name, ts, final='', extra=(), **kw):
+    S('fu_' + name, 'future/fu.cpp', kw.pop('props', FUP), defs=['VF_T%d=%s' % (i, t) for i, t in enumerate(ts)] + (['VF_FINAL=' + final] if final else []) + list(extra), **kw)
+CB1 = 'vf_check(calls[1]==1 && seen[1]==42, 1)'
+fu('set_cb_get', ['SET(42)', 'ONFIN(1)', 'GET(2)'], final=CB1 + ';vf_check(got[2]==42, 6)')
+fu('two_callbacks', ['SET(42)', 'ONFIN(1)', 'ONFIN(2)'], final=CB1 + ';vf_check(calls[2]==1 && seen[2]==42, 1)')
+fu('cb_before', ['ONFIN(0);SET(42)', 'ONFIN(1)'], final=CB1 + ';vf_check(calls[0]==1 && seen[0]==42, 1)')
+fu('cb_after', ['SET(42);ONFIN(3)', 'ONFIN(1)'], final=CB1 + ';vf_check(calls[3]==1 && seen[3]==42, 1)')
+fu('two_getters', ['SET(42)', 'GET(1)', 'GET(2)'], final='vf_check(got[1]==42 && got[2]==42, 6)')
+fu('ready_get', ['SET(42)', 'READY_THEN_GET(1)'], props={'assert': 'C08'})
+# timeouts: every negative value, 0, 1..2^16 ns and the 2^16 largest int64 values; clock readings < 2^16 ns (stated bound:
+# 64-bit comparator chains over the full range do not finish within the solver cap)
+TO = 'VF_TO_ASSUME=vf_assume(to < 65536 || to > INT64_MAX - 65536)'
+TOPT = {'clock': 'ns', 'maxtns': '65536', 'clk': 'bv'}
+fu('wait_for', ['SET(42)', 'WAITFOR(1)'], props={'assert': 'C08'}, opts=TOPT, extra=[TO])
+fu('wait_for_two', ['SET(42)', 'WAITFOR(1)', 'WAITFOR(2)'], props={'assert': 'C08'}, opts=TOPT, extra=[TO], tiers=('thorough',))
+fu('wait_for_unset', ['WAITFOR(0)'], props={'assert': 'C08'}, opts=dict(TOPT, spurious='1'), extra=[TO])
+S('fu_latch', 'future/latch.cpp', FUP)
+
 # ----------------------------------------------------------------------------------------------- manifest texts
 LEVEL_TEXT = {
  'C01': 'Real ConcurrentBoundedQueue<two-word payload, VS> IR; client programs of 2-4 threads mixing push/pop/try_/push_n/pop_n/callback variants on capacities 1-2; oracle = exactly-once multiset, per-thread FIFO, fully published payload, try_ success when sequenced after enough completed operations.',
@@ -56,8 +90,6 @@ TECH_EXTRA = {}
 NOT_APPLICABLE = {}
 
 # ----------------------------------------------------------------------------------------------- prototypes (to be enriched)
-S('ep_basic', 'epoch/ep1.cpp', {'assert': 'C09'}, models={'quick': ['sc', 'tso', 'arm'], 'thorough': ['sc', 'tso', 'arm']})
-S('fu_basic', 'future/fu1.cpp', {'assert': 'C08', 'stuck': 'C08'})
 S('id_basic', 'idalloc/id2.cpp', {'assert': 'C14'})
 S('rl_basic', 'vector/rl1.cpp', {'assert': 'C04'})
 S('ht_same_key', 'hashtable/ht1.cpp', {'assert': 'C03'})
